@@ -4,12 +4,14 @@
     LABEL: PARTIAL.  Proved, for all inputs: properties of the data handed to the process executor by the model of
     the code (Model/Prog.v), and that this model refines the declarative reading of the statement (Spec/C10.v).
     NOT proved (it is the operating system / Python's subprocess module): that the started process receives that
-    data.  That part is OBSERVED on every run: probe processes report the argv, stdin and current directory they
-    really got. *)
+    data, and what a process does.  That part is OBSERVED on every run: probe processes report the argv, stdin and
+    current directory they really got.  The theorems below are all FULL theorems about the model. *)
 From Coq Require Import NArith List Bool.
-From Exactly Require Import Model.Prog Spec.C10 Proofs.ProgResolve.
+From Exactly Require Import Model.Prog Spec.C10 Proofs.ProgResolve Proofs.ProgEval.
 Import ListNotations.
 Local Open Scope N_scope.
+
+(** *** 1. Resolution of program symbols *)
 
 (** The way the code resolves a program (look the symbol up, accumulate, resolve again - with fuel) computes, on
     every symbol table in which every name is defined once and program references point to older definitions,
@@ -40,3 +42,263 @@ Theorem C10_argv_stdin_transformations_accumulate_in_definition_order :
       r_tr r = a_tr a0 ++ flat_map a_tr (map snd links) ++ a_tr extra.
 Proof. exact chain_components. Qed.
 Print Assumptions C10_argv_stdin_transformations_accumulate_in_definition_order.
+
+(** *** 2. The process that is started *)
+
+(** Whenever running a reference to the end of such a chain succeeds (with [act_stdin] = the stdin set in [setup],
+    for the action to check; [] for instructions and text sources), exactly one process was started after the stdin
+    parts were materialised, and it was handed: the executable made of the command's driver and the values of ALL
+    arguments in definition order; as stdin the parts of all definitions in definition order followed by
+    [act_stdin] - [assemble_in_order]: nothing if there is no part, else their concatenation; the current
+    directory.  Its outcome [o] is the next outcome of the oracle, and the transformations to apply to its output
+    are those of all definitions in definition order. *)
+Theorem C10_process_of_a_chain_gets_denoted_argv_stdin_cwd :
+  forall (tbl : table) (n0 : name) (c : command) (a0 : acc src) (links : list (name * acc src)) (extra : acc src)
+         (act_stdin : list src) (f : nat) (cwd : text) (w : world) (o : outcome) (trs : list transformer) (w' : world),
+    wf_table tbl ->
+    lookup tbl n0 = Some (VProg (PCmd c a0)) -> chain_in tbl n0 links ->
+    run_program resolve_tbl assemble_in_order (S f) tbl cwd (PRef (last_name n0 links) extra) act_stdin w
+      = EOk (o, trs) w' ->
+    exists d args parts w1,
+      driver_value tbl (c_driver c) = Ok d /\
+      args_values tbl (c_args c ++ a_args a0 ++ flat_map a_args (map snd links) ++ a_args extra) = Ok args /\
+      eval_parts resolve_tbl assemble_in_order f tbl cwd
+                 ((a_stdin a0 ++ flat_map a_stdin (map snd links) ++ a_stdin extra) ++ act_stdin) w = EOk parts w1 /\
+      w_oracle w1 = o :: w_oracle w' /\
+      w_starts w' = PS (to_executable d args) (assemble_in_order parts) cwd :: w_starts w1 /\
+      trs = a_tr a0 ++ flat_map a_tr (map snd links) ++ a_tr extra.
+Proof. exact chain_process. Qed.
+Print Assumptions C10_process_of_a_chain_gets_denoted_argv_stdin_cwd.
+
+(** The stdin file: no part - no stdin; otherwise the texts of the parts in order, whatever way each part is
+    written (through the Python file object or through the file descriptor). *)
+Theorem C10_stdin_concatenation_order :
+  forall (ps1 ps2 : list part),
+    ps1 ++ ps2 <> [] ->
+    assemble_in_order (ps1 ++ ps2) = Some (concat (map snd ps1) ++ concat (map snd ps2)).
+Proof. exact assemble_in_order_app. Qed.
+Print Assumptions C10_stdin_concatenation_order.
+
+Theorem C10_no_stdin_iff_no_part :
+  forall (ps : list part), assemble_in_order ps = None <-> ps = [].
+Proof. exact assemble_in_order_none. Qed.
+Print Assumptions C10_no_stdin_iff_no_part.
+
+(** The code as it was BEFORE the repair 527f9c3 (model [assemble_buffered]: parts written through the descriptor
+    overtook the buffered ones) did not give the denoted order: a constant part followed by a program-output part
+    reached the child in the opposite order.  (Reproduction on the real program: harness/corpus/C10/stdin-order-*.json;
+    /repo commit 527f9c3 "fix: text assembled from several parts: flush the file before a process writes to it via
+    the descriptor".) *)
+Theorem C10_prefix_stdin_concatenation_order_refuted :
+  exists (ps : list part), assemble_buffered ps <> assemble_in_order ps.
+Proof. exists [(false, [1]); (true, [2])]. exact assemble_buffered_differs. Qed.
+Print Assumptions C10_prefix_stdin_concatenation_order_refuted.
+
+(** ... and it was right exactly in the harmless situations: when no buffered part preceded a descriptor-written one. *)
+Theorem C10_prefix_stdin_order_right_when_direct_parts_first :
+  forall (ps : list part), direct_first ps = true -> assemble_buffered ps = assemble_in_order ps.
+Proof. exact assemble_buffered_in_order. Qed.
+Print Assumptions C10_prefix_stdin_order_right_when_direct_parts_first.
+
+(** A shell command is ONE string: the command line, followed - only when arguments were accumulated through
+    references - by the arguments separated by single spaces; without arguments it is the command line verbatim.
+    Every other command is an argument VECTOR: program, then one element per argument value. *)
+Theorem C10_shell_is_single_string :
+  forall (line : text) (args : list text), to_executable (DVShell line) args = ExShell (join_sp (line :: args)).
+Proof. exact shell_is_one_string. Qed.
+Print Assumptions C10_shell_is_single_string.
+
+Theorem C10_shell_is_verbatim_single_string :
+  forall (line : text), to_executable (DVShell line) [] = ExShell line.
+Proof. exact shell_verbatim. Qed.
+Print Assumptions C10_shell_is_verbatim_single_string.
+
+Theorem C10_non_shell_is_argument_vector :
+  forall (d : dvalue) (args : list text),
+    (forall line, d <> DVShell line) ->
+    exists p, to_executable d args = ExArgv (p :: args) /\ (d = DVExe p \/ d = DVSys p).
+Proof. exact non_shell_is_argv. Qed.
+Print Assumptions C10_non_shell_is_argument_vector.
+
+(** Argument values: the values of a concatenated argument list are the concatenated values; a string is ONE value
+    whatever it contains (empty, spaces, quotes, option-like and reserved words); a reference to a list symbol as a
+    whole argument is spliced; to a string or path symbol it is one value; a list symbol inside a string is
+    rendered with single spaces (one value). *)
+Theorem C10_list_and_string_refs_splice :
+  forall (tbl : table),
+    (forall l1 l2 v1 v2, args_values tbl l1 = Ok v1 -> args_values tbl l2 = Ok v2 ->
+                         args_values tbl (l1 ++ l2) = Ok (v1 ++ v2)) /\
+    (forall fs t, frags_text tbl fs = Ok t -> arg_values tbl (AStr fs) = Ok [t]) /\
+    (forall n l, lookup tbl n = Some (VData (DList l)) -> arg_values tbl (ASym n) = Ok l) /\
+    (forall n t, lookup tbl n = Some (VData (DStr t)) -> arg_values tbl (ASym n) = Ok [t]) /\
+    (forall n t, lookup tbl n = Some (VData (DPath t)) -> arg_values tbl (ASym n) = Ok [t]) /\
+    (forall n l, lookup tbl n = Some (VData (DList l)) -> frag_text tbl (FSym n) = Ok (join_sp l)).
+Proof.
+  intros tbl. repeat split.
+  - apply args_values_ok_app.
+  - apply arg_values_string.
+  - apply arg_values_list_symbol.
+  - apply arg_values_string_symbol.
+  - apply arg_values_path_symbol.
+  - apply frag_text_list_symbol.
+Qed.
+Print Assumptions C10_list_and_string_refs_splice.
+
+(** Transformations: first accumulated, first applied. *)
+Theorem C10_transformations_order :
+  forall (ts1 ts2 : list transformer) (x : text), apply_trs (ts1 ++ ts2) x = apply_trs ts2 (apply_trs ts1 x).
+Proof. exact apply_trs_app. Qed.
+Print Assumptions C10_transformations_order.
+
+(** *** 3. The outcome *)
+
+(** Exit codes: EVERY exit code [c] (no bound), every phase: a program run as an instruction passes iff
+    -ignore-exit-code is given or [c = 0]; otherwise it is a FAIL in [assert] and a HARD_ERROR in every other
+    phase - and this is the verdict of spec (D4). *)
+Theorem C10_exit_code_decision :
+  forall (ph : phase) (ign : bool) (c : N),
+    exit_code_verdict ph ign c =
+      (if ign then StPass else if c =? 0 then StPass else match ph with PhAssert => StFail | _ => StHard end) /\
+    exit_code_verdict ph ign c = spec_verdict (match ph with PhAssert => true | _ => false end) ign c /\
+    (c <> 0 -> exit_code_verdict ph false c = match ph with PhAssert => StFail | _ => StHard end).
+Proof.
+  intros ph ign c. split; [apply exit_code_decision | split; [apply exit_code_verdict_spec | apply nonzero_exit_fails]].
+Qed.
+Print Assumptions C10_exit_code_decision.
+
+(** The verdict of run / $ / % is decided by the exit code the process returned (the oracle's outcome of the
+    process started for it, see theorem 2). *)
+Theorem C10_run_instruction_verdict :
+  forall (r : table -> program -> res rprog) (asm : list part -> option text) (fuel : nat) (ph : phase) (ign : bool)
+         (p : program) (st : state) (o : outcome) (trs : list transformer) (w' : world),
+    run_program r asm fuel (st_tbl st) (st_cwd st) p [] (st_world st) = EOk (o, trs) w' ->
+    exec_instr r asm fuel ph (IRun ign p) st = Ok (exit_code_verdict ph ign (o_code o), set_world st w').
+Proof. exact run_instruction_verdict. Qed.
+Print Assumptions C10_run_instruction_verdict.
+
+(** exit-code -from PROGRAM sees the exit code the process returned; stdout / stderr -from PROGRAM see the chosen
+    channel after the accumulated transformations. *)
+Theorem C10_assertions_from_program :
+  forall (r : table -> program -> res rprog) (asm : list part -> option text) (fuel : nat) (ph : phase) (p : program)
+         (st : state) (o : outcome) (trs : list transformer) (w' : world),
+    run_program r asm fuel (st_tbl st) (st_cwd st) p [] (st_world st) = EOk (o, trs) w' ->
+    (forall k, exec_instr r asm fuel ph (IExitCodeFrom p k) st
+               = Ok (if o_code o =? k then StPass else StFail, set_world st w')) /\
+    (forall ch t, exec_instr r asm fuel ph (IOutFrom ch p t) st
+                  = Ok (if text_eqb t (apply_trs trs (select ch o)) then StPass else StFail, set_world st w')).
+Proof. exact from_program_assertions. Qed.
+Print Assumptions C10_assertions_from_program.
+
+(** The action to check: what is stored is the exit code the process returned - whatever it is -, its stdout after
+    the accumulated transformations, its stderr; and this is what exit-code, stdout and stderr subsequently see. *)
+Theorem C10_act_outcome_is_what_assertions_see :
+  forall (r : table -> program -> res rprog) (asm : list part -> option text) (fuel : nat) (p : program) (st : state)
+         (o : outcome) (trs : list transformer) (w' : world),
+    run_program r asm fuel (st_tbl st) (st_cwd st) p (opt_list (st_stdin st)) (st_world st) = EOk (o, trs) w' ->
+    exists st',
+      exec_act r asm fuel (ActCommand p) st = Ok (StPass, st') /\
+      st_act st' = Some (Out (o_code o) (apply_trs trs (o_out o)) (o_err o)) /\
+      (forall ph k, exec_instr r asm fuel ph (IExitCode k) st' = Ok (if o_code o =? k then StPass else StFail, st')) /\
+      (forall ph t, exec_instr r asm fuel ph (IStdout t) st'
+                    = Ok (if text_eqb t (apply_trs trs (o_out o)) then StPass else StFail, st')) /\
+      (forall ph t, exec_instr r asm fuel ph (IStderr t) st' = Ok (if text_eqb t (o_err o) then StPass else StFail, st')).
+Proof. exact act_outcome_captured. Qed.
+Print Assumptions C10_act_outcome_is_what_assertions_see.
+
+(** A program used as a text source (-stdout-from / -stderr-from [-ignore-exit-code] PROGRAM, e.g. as stdin of
+    another program, as the [setup] stdin, as the contents of a file): it is run like any program, without extra
+    stdin; the text is the chosen channel after the program's accumulated transformations; a non-zero exit code is a
+    hard error unless -ignore-exit-code is given. *)
+Theorem C10_program_as_text_source :
+  forall (r : table -> program -> res rprog) (asm : list part -> option text) (f : nat) (tbl : table) (cwd : text)
+         (ch : chan) (ign : bool) (p : program) (w : world) (o : outcome) (trs : list transformer) (w' : world),
+    run_program r asm f tbl cwd p [] w = EOk (o, trs) w' ->
+    eval_src r asm (S f) tbl cwd (SProg ch ign p) w =
+    if (o_code o =? 0) || ign then EOk (apply_trs trs (select ch o)) w' else EHard w'.
+Proof. exact program_as_text_source. Qed.
+Print Assumptions C10_program_as_text_source.
+
+(** The other actors.  File interpreter: the process is the interpreter with its arguments, then the source file,
+    then the arguments of the act phase; stdin is the [setup] stdin only; the outcome is stored as it is. *)
+Theorem C10_file_interpreter_actor_process :
+  forall (r : table -> program -> res rprog) (asm : list part -> option text) (fuel : nat) (interp : command)
+         (file : text) (args : list arg) (st st' : state),
+    exec_act r asm fuel (ActFile interp file args) st = Ok (StPass, st') ->
+    exists dv iargs fargs parts w1 o,
+      driver_value (st_tbl st) (c_driver interp) = Ok dv /\
+      args_values (st_tbl st) (c_args interp) = Ok iargs /\ args_values (st_tbl st) args = Ok fargs /\
+      eval_parts r asm fuel (st_tbl st) (st_cwd st) (opt_list (st_stdin st)) (st_world st) = EOk parts w1 /\
+      w_oracle w1 = o :: w_oracle (st_world st') /\
+      w_starts (st_world st')
+        = PS (to_executable dv (iargs ++ [file] ++ fargs)) (asm parts) (st_cwd st) :: w_starts w1 /\
+      st_act st' = Some o.
+Proof. exact act_file_process. Qed.
+Print Assumptions C10_file_interpreter_actor_process.
+
+(** Source interpreter: the interpreter with its arguments and, last, the file that holds the source code
+    ([{SRC}] = the name the harness gives that file); its contents are the text of the act phase with symbols
+    substituted. *)
+Theorem C10_source_interpreter_actor_process :
+  forall (r : table -> program -> res rprog) (asm : list part -> option text) (fuel : nat) (interp : command)
+         (source : list frag) (st st' : state),
+    exec_act r asm fuel (ActSource interp source) st = Ok (StPass, st') ->
+    exists dv iargs code parts w1 o,
+      driver_value (st_tbl st) (c_driver interp) = Ok dv /\
+      args_values (st_tbl st) (c_args interp) = Ok iargs /\ frags_text (st_tbl st) source = Ok code /\
+      eval_parts r asm fuel (st_tbl st) (st_cwd st) (opt_list (st_stdin st)) (st_world st) = EOk parts w1 /\
+      w_oracle w1 = o :: w_oracle (st_world st') /\
+      w_starts (st_world st')
+        = PS (to_executable dv (iargs ++ [[123; 83; 82; 67; 125]])) (asm parts) (st_cwd st) :: w_starts w1 /\
+      st_act st' = Some o /\ st_source st' = Some code.
+Proof. exact act_source_process. Qed.
+Print Assumptions C10_source_interpreter_actor_process.
+
+(** Null actor: no process is started; exit code 0 and empty output are what the assertions see. *)
+Theorem C10_null_actor :
+  forall (r : table -> program -> res rprog) (asm : list part -> option text) (fuel : nat) (st : state),
+    exists st', exec_act r asm fuel ActNull st = Ok (StPass, st') /\
+                st_world st' = st_world st /\ st_act st' = Some (Out 0 [] []).
+Proof. exact act_null. Qed.
+Print Assumptions C10_null_actor.
+
+(** *** 4. Whole cases: the model refines the specification *)
+
+(** For every well-formed symbol table (the definitions made), every case that makes no further definitions, every
+    fuel, current directory and oracle: the model of the code ([run_case]: resolution with fuel as the code does
+    it) and the specification ([spec_run_case]: the declarative denotation) give the same processes, stdin texts,
+    directories, captured outcome, captured texts and verdict (or the same model error). *)
+Theorem C10_model_refines_specification :
+  forall (tbl : table), wf_table tbl ->
+  forall (c : tcase), case_no_defs c = true ->
+  forall (fuel : nat) (cwd : text) (oracle : list outcome),
+    run_case fuel cwd tbl c oracle = spec_run_case fuel cwd tbl c oracle.
+Proof. exact model_refines_spec. Qed.
+Print Assumptions C10_model_refines_specification.
+
+(** *** Non-vacuity *)
+
+(** P0 = % prog a -stdin 'A' -transformed-by b->c ; P1 = @ P0 [list symbol] -stdin 'B' ; [act] @ P1 '' -transformed-by c->d
+    with [setup] stdin 'S': one process, argv prog a x y "" ; stdin "ABS"; stored stdout of "b" is "d". *)
+Example C10_example :
+  let A := 65 in let B := 66 in let S := 83 in
+  let tbl0 : table := [(3, VData (DList [[120]; [121]]))] in
+  let p0 := PCmd (Cmd (DSys [FConst [112]]) [AStr [FConst [97]]]) (Acc [SStr [FConst [A]]] [] [[(98, 99)]]) in
+  let p1 := PRef 1 (Acc [SStr [FConst [B]]] [ASym 3] []) in
+  let c := TC [IDef 1 (VProg p0); IDef 2 (VProg p1); IStdin (SStr [FConst [S]])]
+              (ActCommand (PRef 2 (Acc [] [AStr []] [[(99, 100)]])))
+              [] [IExitCode 7; IStdout [100]] [] in
+  run_case 10 [47] tbl0 c [Out 7 [98] []]
+  = Ok (Res StPass [PS (ExArgv [[112]; [97]; [120]; [121]; []]) (Some [A; B; S]) [47]]
+           (Some (Out 7 [100] [])) None []).
+Proof. vm_compute. reflexivity. Qed.
+
+(** a shell command with arguments accumulated through a reference; non-zero exit in [cleanup] after a FAIL *)
+Example C10_example_shell :
+  let p0 := PCmd (Cmd (DShell [FConst [101; 99; 104; 111; 32; 32; 39; 120; 39]]) []) acc_empty in
+  let c := TC [IDef 1 (VProg p0)] ActNull [] [IRun false (PRef 1 (Acc [] [AStr [FConst [97; 32; 98]]] []))]
+              [IRun false (PRef 1 acc_empty)] in
+  run_case 10 [47] [] c [Out 3 [] []; Out 4 [] []]
+  = Ok (Res StHard [PS (ExShell [101; 99; 104; 111; 32; 32; 39; 120; 39; 32; 97; 32; 98]) None [47];
+                    PS (ExShell [101; 99; 104; 111; 32; 32; 39; 120; 39]) None [47]]
+           (Some (Out 0 [] [])) None []).
+Proof. vm_compute. reflexivity. Qed.
